@@ -70,7 +70,8 @@ type poller struct {
 	// on the same IO object.
 	lck sync.Mutex
 
-	// pending is the number of pending posts the poller needs to execute
+	// pending is the number of pending operations (registered reads/writes, armed timers) and posts. Posts
+	// update it from any goroutine, the loop updates it without holding lck: it is only accessed atomically.
 	pending int64
 
 	// closed is true if the close() has been called on fd
@@ -105,13 +106,13 @@ func NewPoller() (Poller, error) {
 		return nil, err
 	}
 	// ignore the waker
-	p.pending--
+	atomic.AddInt64(&p.pending, -1)
 
 	return p, err
 }
 
 func (p *poller) Pending() int64 {
-	return p.pending
+	return atomic.LoadInt64(&p.pending)
 }
 
 func (p *poller) Close() error {
@@ -130,7 +131,7 @@ func (p *poller) Closed() bool {
 func (p *poller) Post(handler func()) error {
 	p.lck.Lock()
 	p.posts = append(p.posts, handler)
-	p.pending++
+	atomic.AddInt64(&p.pending, 1)
 	p.lck.Unlock()
 
 	// Concurrent writes are thread safe for eventfds.
@@ -220,7 +221,7 @@ func (p *poller) dispatch() {
 	p.lck.Lock()
 	for _, handler := range p.posts {
 		handler()
-		p.pending--
+		atomic.AddInt64(&p.pending, -1)
 	}
 	p.posts = p.posts[:0]
 	p.lck.Unlock()
@@ -237,7 +238,7 @@ func (p *poller) SetWrite(slot *Slot) error {
 func (p *poller) setRW(fd int, slot *Slot, flag PollerEvent) error {
 	events := &slot.Events
 	if *events&flag != flag {
-		p.pending++
+		atomic.AddInt64(&p.pending, 1)
 
 		oldEvents := *events
 		*events |= flag
@@ -251,7 +252,7 @@ func (p *poller) setRW(fd int, slot *Slot, flag PollerEvent) error {
 		if err != nil {
 			// Nothing was registered: do not count it as pending and do not pretend the interest is set,
 			// otherwise RunPending never returns and a later SetRead/SetWrite is silently skipped.
-			p.pending--
+			atomic.AddInt64(&p.pending, -1)
 			*events = oldEvents
 		}
 		return err
@@ -303,7 +304,7 @@ func (p *poller) Del(slot *Slot) error {
 func (p *poller) DelRead(slot *Slot) error {
 	events := &slot.Events
 	if *events&PollerReadEvent == PollerReadEvent {
-		p.pending--
+		atomic.AddInt64(&p.pending, -1)
 		*events ^= PollerReadEvent
 		if *events != 0 {
 			return p.modify(slot.Fd, createEvent(*events, slot))
@@ -316,7 +317,7 @@ func (p *poller) DelRead(slot *Slot) error {
 func (p *poller) DelWrite(slot *Slot) error {
 	events := &slot.Events
 	if *events&PollerWriteEvent == PollerWriteEvent {
-		p.pending--
+		atomic.AddInt64(&p.pending, -1)
 		*events ^= PollerWriteEvent
 		if *events != 0 {
 			return p.modify(slot.Fd, createEvent(*events, slot))
